@@ -221,6 +221,7 @@ class Executor(CallMixin, EvalMixin, ExprMixin, StmtMixin):
             return SV(T.Bool, z3.InRe(a[0].t, R.REGEXES[a[1].t.as_string()]))
         if name == "str_at": return SV(T.Str, z3.SubString(a[0].t, a[1].t, 1))
         if name == "str_from_int": return SV(T.Str, z3.IntToStr(a[0].t))
+        if name == "py_split": return self.py_split(st, a[0].t, a[1].t.as_string())
         if name == "heap_eq":
             fam, field = a[0].t.as_string().split(".")
             cur = self.harr(st, fam, field)
